@@ -170,3 +170,22 @@ Proof.
       assert (Z.quot ((P18 - pw) * nthZ (b_res p) j) P18 <= 0) by (apply Z.quot_le_upper_bound; [reflexivity|lia]). lia. }
     apply quot_floor; [lia|reflexivity].
 Qed.
+
+(* ---------- the integer core of the single-asset join: shares = floor( S * (Pow(y, nw) - 1) ) when Pow >= 1 ---------- *)
+Lemma d_quo_one a : d_quo a P18 = a.
+Proof.
+  unfold d_quo. replace (a * (P18 * P18)) with ((a * P18) * P18) by ring.
+  rewrite Z.quot_mul by discriminate. apply chop_round_exact. reflexivity.
+Qed.
+
+Theorem b_single_asset_join_floor p bal w a fee ts s :
+  b_calc_single_asset_join p bal w a fee ts = Ok s ->
+  exists nw fr y pw,
+    nw = d_quo (dec_of_int w) (dec_of_int (b_total_weight p)) /\ fee_ratio nw fee = Ok fr /\
+    y = d_quo (dec_of_int bal + d_mul (dec_of_int a) fr) (dec_of_int bal) /\
+    pow y nw = Ok pw /\ s = Z.quot ((pw - P18) * ts) P18.
+Proof.
+  intros H. apply b_single_asset_join_rounded_image in H as (nw & fr & r & _ & Hnw & Hfr & (wr & y & pw & _ & _ & Hwr & Hy & Hpw & Hr) & Hs).
+  rewrite d_quo_one in Hwr. subst wr. exists nw, fr, y, pw. repeat split; auto.
+  rewrite d_mul_dec_of_int in Hr. subst r s. f_equal. ring.
+Qed.
